@@ -12,7 +12,7 @@ Definition empty_rule : rule :=
 Definition parse_comment_line (line : bytes) : bytes * bytes :=
   let c := trim_space (trim_prefix "*" (trim_space line)) in
   match split_on x20 c with
-  | k :: (_ :: _) as parts => (k, join " " (tl parts))
+  | k :: ((_ :: _) as rest) => (k, join " " rest)
   | _ => ([], [])
   end.
 
